@@ -47,6 +47,24 @@ def main(tier="quick"):
     print("%-34s %s   (Deterministic in the memoised-helper model)" % ("C15 memo model", "ok" if hit else "FAILED"))
     ok &= hit
 
+    # the loader: one output buffer per filter length (SharedBuf) must break HeldStable
+    try:
+        import dtcwt
+        from . import tables
+        from .common import REPO
+        d = scratch()
+        tables.write_tablesdata(d, os.path.join(REPO, "pytorch_wavelets", "dtcwt", "data"), os.path.join(os.path.dirname(dtcwt.__file__), "data"),
+                                ["near_sym_a", "qshift_a", "qshift_06", "qshift_b_bp"])
+        cfg = os.path.join(d, "neg-tables.cfg")
+        tlc.write_cfg(cfg, {"MaxLoads": 3, "SharedBuf": True}, ["HeldStable"])
+        res = tlc.run_one("Tables", cfg, 1, "neg-tables", coverage=False, tla_library=d, timeout=600)
+        hit = any(v["invariant"] == "HeldStable" for v in res.violations)
+    except Exception as e:   # noqa
+        print("Tables negative model failed to run: %r" % e)
+        hit = False
+    print("%-34s %s   (HeldStable with one output buffer per filter length)" % ("C18 shared-buffer model", "ok" if hit else "FAILED"))
+    ok &= hit
+
     # ---- (b) binding of the trace specifications
     rep = common.Report("selftest", tier)
     ev = dwtchecks.record_analysis_events(rep, "quick")[:40]
